@@ -478,6 +478,17 @@ fn build_private_batch_constraints(
     debug_assert_eq!(aggregated_output::BLOCK_NUMBER_OFFSET, 7);
 }
 
+/// Verification hook (cfg-gated, add-only): exposes the private wrapper-constraint builder so that the
+/// /verif harness can instantiate it over free child public-input targets (no recursive verifier).
+#[cfg(quantus_network_qp_zk_circuits_verif)]
+pub fn verif_build_private_batch_constraints(
+    builder: &mut CircuitBuilder<F, D>,
+    targets: &PrivateBatchCircuitTargets,
+    n_leaf: usize,
+) {
+    build_private_batch_constraints(builder, targets, n_leaf)
+}
+
 fn hash_dummy_nullifier_pre_image(
     builder: &mut CircuitBuilder<F, D>,
     pre_image: [Target; 4],
